@@ -198,6 +198,11 @@ func (c *fileCtx) typeRef(f family) (string, bool) {
 		}
 		return c.pick(typedefNames), false
 	case x < 98:
+		if c.r.Intn(2) == 0 {
+			// the name of a module of the set as qualifier: a prefix only when an import (or
+			// the module itself) assigns exactly that text, else an unknown prefix
+			return fmt.Sprintf("m%d:%s", c.r.Intn(3), c.pick(typedefNames)), false
+		}
 		return "nosuch", false
 	case x < 99:
 		return c.pick(prefixPool) + ":nosuch", false
@@ -545,9 +550,15 @@ func randomCase(r *rand.Rand, id string) tcase {
 	if r.Intn(6) == 0 {
 		fams = append(fams, famUnion)
 	}
+	// prefixes are drawn from the usual pool or (some of the time) from the module names of the
+	// set: a prefix is a name of its own, whatever module happens to be called the same
+	modNames := []string{"m0", "m1", "m2"}
 	ownPrefix := make([]string, nMods)
 	for i := range ownPrefix {
 		ownPrefix[i] = prefixPool[r.Intn(len(prefixPool))]
+		if r.Intn(100) < 12 {
+			ownPrefix[i] = modNames[r.Intn(len(modNames))]
+		}
 	}
 	deep := r.Intn(4) == 0
 	for i := 0; i < nMods; i++ {
@@ -564,6 +575,9 @@ func randomCase(r *rand.Rand, id string) tcase {
 					continue
 				}
 				p := append(prefixPool, "w")[r.Intn(len(prefixPool)+1)]
+				if r.Intn(100) < 18 {
+					p = modNames[r.Intn(len(modNames))] // e.g. import m1 under prefix m2
+				}
 				if p == self && r.Intn(100) < 96 {
 					continue // an import prefix equal to the own prefix is rare (illegal YANG)
 				}
@@ -623,6 +637,9 @@ func randomCase(r *rand.Rand, id string) tcase {
 			bp := ownPrefix[i]
 			if r.Intn(5) == 0 {
 				bp = prefixPool[r.Intn(len(prefixPool))]
+				if r.Intn(3) == 0 {
+					bp = modNames[r.Intn(len(modNames))]
+				}
 			}
 			owner := mname
 			if r.Intn(100) == 0 {
@@ -1066,4 +1083,45 @@ func revisionCase(r *rand.Rand, id string, history bool) tcase {
 	first = append(first, other...)
 	r.Shuffle(len(first), func(a, b int) { first[a], first[b] = first[b], first[a] })
 	return tcase{ID: id, Files: first, Later: later}
+}
+
+// ---------------------------------------------------------------------------------------------
+// exhaustive enumeration of prefix / module-name collisions
+//
+// Module m (or its submodule s) imports module b and module a, in that order; the import
+// prefixes, m's own prefix (the submodule's belongs-to prefix) and the qualifier of the reference
+// run over texts that are also module names of the set.  a, b and m each declare `t` with a
+// different base type, so the dump shows where the reference was bound; a qualifier that no
+// import assigns (and that is not the own prefix) is an unknown prefix, also when a module of
+// that name is imported.
+func collisionCases() []tcase {
+	var out []tcase
+	own := []string{"p", "a", "b"}
+	imp := []string{"x", "a", "b", "m", "p"}
+	quals := []string{"x", "a", "b", "m", "p", "zz"}
+	aText := "module a { namespace \"urn:a\"; prefix pa;\ntypedef t { type uint8; }\n}\n"
+	bText := "module b { namespace \"urn:b\"; prefix pb;\ntypedef t { type uint16; }\n}\n"
+	for variant := 0; variant < 2; variant++ {
+		for _, o := range own {
+			for _, pb := range imp {
+				for _, pa := range imp {
+					for _, q := range quals {
+						imports := fmt.Sprintf("import b { prefix %s; }\nimport a { prefix %s; }\n", pb, pa)
+						leaf := fmt.Sprintf("leaf x1 { type %s:t; }\ncontainer c1 { typedef t { type boolean; } leaf x2 { type %s:t; } }\n", q, q)
+						var files []srcFile
+						if variant == 0 {
+							files = []srcFile{{"m.yang", fmt.Sprintf("module m { namespace \"urn:m\"; prefix %s;\n%stypedef t { type int8; }\n%s}\n", o, imports, leaf)}}
+						} else {
+							files = []srcFile{
+								{"m.yang", "module m { namespace \"urn:m\"; prefix p; include s;\ntypedef t { type int8; }\n}\n"},
+								{"s.yang", fmt.Sprintf("submodule s { belongs-to m { prefix %s; }\n%s%s}\n", o, imports, leaf)}}
+						}
+						files = append(files, srcFile{"a.yang", aText}, srcFile{"b.yang", bText})
+						out = append(out, tcase{ID: fmt.Sprintf("col/v%d/o%s/b%s/a%s/q%s", variant, o, pb, pa, q), Files: files})
+					}
+				}
+			}
+		}
+	}
+	return out
 }
